@@ -44,6 +44,10 @@ def base_config(rng, sc):
     sc.rule("deny", 'request.target.host == "blocked.sim"')
     sc.rule("lb", 'request.listener == "socks"')
     sc.rule("uquic", 'request.target.port == 4433')
+    if rng.random() < 0.5:
+        # generated filters: accepted or rejected at load - and when accepted, evaluated for every probe
+        for _ in range(rng.randint(1, 3)):
+            sc.rule(rng.choice(["direct", "uhttp", "lb", "deny"]), rand_expr(rng, "B"))
     sc.rule("direct")
     # legal boundary values belong to the *valid* configurations: 0 disables a timeout, historySize 0 keeps nothing ...
     sc.cfg["timeouts"] = {"idle": rng.choice([0, 0, 1, 5, 600, 2 ** 32, 2 ** 63 - 1]), "udp": rng.choice([0, 1, 5, 2 ** 63 - 1])}
@@ -53,8 +57,106 @@ def base_config(rng, sc):
     sc.cfg["metrics"]["cors"] = rng.choice(["*", "http://ui.sim"])
     if rng.random() < 0.5:
         sc.cfg["accessLog"] = {"path": "/sim/access.log", "format": {"script": "`${request.source} -> ${request.target} via ${request.connector}`"}}
+        if rng.random() < 0.5:
+            sc.cfg["accessLog"]["format"]["script"] = rand_expr(rng, "S")
+    if rng.random() < 0.3:
+        for e in sc.cfg["connectors"]:
+            if e.get("name") == "lb":
+                e["algorithm"] = {"hashBy": rand_expr(rng, rng.choice("SSI"))}
     sc.add_origin(oaddr, default_ops=[op("sleep", ms=20), op("shutdown"), op("recv_eof", timeout_ms=5000, on_fail="continue")], oid="origin")
     return {"http": lh, "https": lt, "socks": ls, "rev": lr, "quic": lq}, oaddr
+
+
+# ---------------------------------------------------------------------------------------
+# random rule-language expressions (filters, load-balancer keys, access-log scripts): mostly well typed, with dynamic
+# errors that depend on the request (division by a port difference, non-numeric to_integer, index out of range), and -
+# rarely - wrong arity, out-of-range tuple indexes and wrong types. Constants come from the values the probes use, so
+# that "x - port" really becomes 0 for some probe.
+INTS = [0, 1, -1, 2, 80, 4433, 65535, 9223372036854775807]
+STRS = ["", "a", "blocked.sim", "10.9.0.9", "10.0.0.0/8", ".", "sim", "80", "x.y.z"]
+FUNCS = {"to_string": 1, "to_integer": 1, "split": 2, "strcat": 1, "cidr_match": 2}
+
+
+def rand_expr(rng, t, d=0, odd=0.04):
+    """milu source text of (usually) type t in {'B','I','S','AS','AI'}"""
+    E = lambda tt: rand_expr(rng, tt, d + 1, odd)
+    if rng.random() < odd:
+        k = rng.randrange(5)
+        if k == 0:   # wrong arity
+            f = rng.choice(list(FUNCS))
+            n = rng.choice([0, max(0, FUNCS[f] - 1), FUNCS[f] + 1])
+            return "%s(%s)" % (f, ", ".join(E(rng.choice("IS")) for _ in range(n)))
+        if k == 1:   # tuple index out of range / negative
+            return "(%s, %s).%d" % (E("I"), E("S"), rng.choice([2, 5, 127, 4294967296]))
+        if k == 2:   # another type than asked for
+            return E(rng.choice([x for x in ("B", "I", "S", "AS") if x != t]))
+        if k == 3:   # unknown names
+            return rng.choice(["request.nosuch", "nosuch", "request.target.nosuch", "request.source.host.x", "nosuch(1)"])
+        return rng.choice(["(", "1 +", "[1, \"a\"]", "if true then 1", "let x = in x", "\"unterminated", "1 2", "`${`"])
+    leaf = d >= 4 or rng.random() < 0.3
+    if t == "I":
+        if leaf:
+            return rng.choice([str(rng.choice(INTS)), "request.target.port", "request.source.port"])
+        k = rng.randrange(9)
+        if k < 3:
+            return "(%s %s %s)" % (E("I"), rng.choice(["+", "-", "*", "/", "%", "&", "|", "^", "<<", ">>", ">>>"]), E("I"))
+        if k == 3:
+            return rng.choice(["-", "~"]) + "(%s)" % E("I")
+        if k == 4:
+            return "to_integer(%s)" % E("S")
+        if k == 5:
+            return "(if %s then %s else %s)" % (E("B"), E("I"), E("I"))
+        if k == 6:
+            return "(%s ? %s : %s)" % (E("B"), E("I"), E("I"))
+        if k == 7:
+            return "[%s, %s][%s]" % (E("I"), E("I"), E("I"))
+        return "(let v%d = %s in (v%d + %s))" % (d, E("I"), d, E("I"))
+    if t == "S":
+        if leaf:
+            return rng.choice(["\"%s\"" % rng.choice(STRS), "request.target.host", "request.source.host", "request.listener", "request.target.type", "request.feature", "request.connector"])
+        k = rng.randrange(7)
+        if k == 0:
+            return "to_string(%s)" % E(rng.choice("ISB"))
+        if k == 1:
+            return "strcat(%s)" % E("AS")
+        if k == 2:
+            return "`%s${%s}%s${%s}`" % (rng.choice(["", "x=", "-"]), E(rng.choice("IS")), rng.choice(["", " "]), E("S"))
+        if k == 3:
+            return "%s[%s]" % (E("AS"), E("I"))
+        if k == 4:
+            return "(if %s then %s else %s)" % (E("B"), E("S"), E("S"))
+        if k == 5:
+            return "(%s, %s).%d" % (E("I"), E("S"), 1)
+        return "(let s%d = %s in strcat([s%d, %s]))" % (d, E("S"), d, E("S"))
+    if t == "AS":
+        if leaf or rng.random() < 0.5:
+            return "[%s]" % ", ".join(E("S") for _ in range(rng.randint(1, 3)))
+        return "split(%s, %s)" % (E("S"), E("S"))
+    if t == "AI":
+        return "[%s]" % ", ".join(E("I") for _ in range(rng.randint(1, 3)))
+    # Boolean
+    if leaf:
+        return rng.choice(["true", "false", "request.target.port == 80", "request.listener == \"http\"", "request.target.host == \"blocked.sim\""])
+    k = rng.randrange(9)
+    if k == 0:
+        tt = rng.choice("IS")
+        return "(%s %s %s)" % (E(tt), rng.choice(["==", "!="]), E(tt))
+    if k == 1:
+        return "(%s %s %s)" % (E("I"), rng.choice(["<", ">"]), E("I"))
+    if k == 2:
+        return "(%s %s \"%s\")" % (E("S"), rng.choice(["=~", "!~"]), rng.choice(["^a", "sim$", ".*", "(", "[0-9]+", "\\\\d"]))
+    if k == 3:
+        return "(%s _: %s)" % (E("S"), E("AS"))
+    if k == 4:
+        return "!(%s)" % E("B")
+    if k == 5:
+        return "(%s %s %s)" % (E("B"), rng.choice(["&&", "||", "^^", "and", "or", "xor"]), E("B"))
+    if k == 6:
+        return "cidr_match(%s, \"%s\")" % (E("S"), rng.choice(["10.0.0.0/8", "0.0.0.0/0", "fd00::/8", "10.9.0.9/32", "garbage", "10.0.0.0/33"]))
+    if k == 7:
+        return "(%s _: %s)" % (E("I"), E("AI"))
+    return "(if %s then %s else %s)" % (E("B"), E("B"), E("B"))
+
 
 
 def paths(node, prefix=()):
@@ -176,10 +278,14 @@ def mutate_once(rng, cfg, desc):
                                   {"target": "direct", "filter": 5}, {"target": 5}, "direct", {"target": "direct", "filter": 'request.target.port == "80"'},
                                   {"target": "direct", "filter": "to_integer(request.target.host) > 0"}, {"target": "direct", "filter": "request.target.host =~ \"(\""},
                                   {"target": "direct", "filter": "1 / (request.target.port - request.target.port) == 1"}, {"target": "direct", "filter": "request.nosuch == 1"}])
+                if rng.random() < 0.5:
+                    bad = {"target": "direct", "filter": rand_expr(rng, "B", odd=0.15)}
                 cfg["rules"].insert(rng.randint(0, len(cfg["rules"])), bad)
                 desc.append("rule %r" % (bad,))
         elif k == 10:
             v = rng.choice(["request.source", "1", "`${1/0}`", "request.nosuch", "", "(", "to_integer(request.source.host)"])
+            if rng.random() < 0.6:
+                v = rand_expr(rng, rng.choice("SSIB"), odd=0.15)
             for e in cfg.get("connectors") or []:
                 if isinstance(e, dict) and e.get("type") == "loadbalance" and e.get("name") == "lb":
                     e["algorithm"] = {"hashBy": v}
